@@ -58,7 +58,8 @@ type Reenc<'a, T> = Option<&'a dyn Fn(T, &mut BytesMut)>;
 /// finding that cannot be observed from outside (an allocation)?
 type Guard = Option<fn(&[u8]) -> bool>;
 
-/// OPEN finding `alloc:routed-req`: header = origin(16) node_len(4) lane_len(4) len_and_tag(8).
+/// FIXED in /repo 70b5a28 (guard no longer used; kept for reference). Finding `alloc:routed-req`: header = origin(16) node_len(4) lane_len(4) len_and_tag(8).
+#[allow(dead_code)]
 fn routed_req_reserves_declared_path(buf: &[u8]) -> bool {
     if buf.len() < 32 {
         return false;
@@ -324,7 +325,7 @@ fuzz_target!(|data: &[u8]| -> Corpus {
             || RequestMessageDecoder::<Value, VRec>::new(Value::make_recognizer()),
             None,
             false,
-            Some(routed_req_reserves_declared_path),
+            None,
             sz,
             s,
         ),
